@@ -43,7 +43,7 @@ pub fn run(obligation: &str) -> i32 {
     let mut rep = Rep::new();
     std::panic::set_hook(Box::new(|_| {}));   // panics of the code under contract are reported as outcomes, not printed
     if ["C06.generate_integer", "C06.integer_template", "C04.generate_typealias", "C04.generate_octet_string", "C04.generate_bit_string", "C04.typealias_template", "C04.octet_string_template", "C04.fixed_octet_string_template", "C04.bit_string_template", "C04.fixed_bit_string_template"].iter().any(|p| obligation.starts_with(p)) { gen_assignments(&mut rep); return rep.finish("GEN_assignments"); }
-    if obligation.starts_with("C02.type_table") { gen_type_table(&mut rep); return rep.finish("GEN_type_table"); }
+    if obligation.starts_with("C02.type_table") || obligation.starts_with("C02.string_type") || obligation.starts_with("C02.qualified_type") { gen_type_table(&mut rep); return rep.finish("GEN_type_table"); }
     if ["C02.format_member_or_option", "C02.format_sequence_member", "C02.format_choice_option", "C02.boxed_type", "C02.format_default_methods"].iter().any(|p| obligation.starts_with(p)) { gen_members(&mut rep); gen_default_methods(&mut rep); return rep.finish("GEN_members"); }
     if obligation.starts_with("C14.generate_enumerated") || obligation.starts_with("C14.enumerated_template") { gen_blocks(&mut rep); return rep.finish("GEN_blocks"); }
     if obligation.starts_with("C14.format_enum_members") || obligation.starts_with("C05.format_enum_members") { gen_enum_members(&mut rep); return rep.finish("GEN_enum_members"); }
@@ -202,6 +202,17 @@ fn gen_type_table(rep: &mut Rep) {
         (ASN1Type::ElsewhereDeclaredType(DeclarationElsewhere { parent: None, module: None, identifier: "Other".into(), constraints: vec![] }), "Other", "@REF@Other".into()),
         (ASN1Type::Any, "ANY", "Any".into()), (ASN1Type::External, "EXTERNAL", "Any".into()), (ASN1Type::EmbeddedPdv, "EMBEDDED PDV", "Any".into()),
     ];
+    for (st, w) in [(CharacterStringType::NumericString, "NumericString"), (CharacterStringType::VisibleString, "VisibleString"), (CharacterStringType::IA5String, "Ia5String"), (CharacterStringType::TeletexString, "TeletexString"),
+                    (CharacterStringType::GraphicString, "GraphicString"), (CharacterStringType::GeneralString, "GeneralString"), (CharacterStringType::UniversalString, "UniversalString"), (CharacterStringType::UTF8String, "Utf8String"),
+                    (CharacterStringType::BMPString, "BmpString"), (CharacterStringType::PrintableString, "PrintableString")] {
+        let got = hook_type_table(&ASN1Type::CharacterString(CharacterString { constraints: vec![], ty: st }), "f", "Parent", false);
+        rep.check("C02.string_type.the_rasn_type_of_each_character_string_type", matches!(&got, Ok(g) if nows(g) == w), || format!("component `f {st:?}` -> {got:?}"));
+        rep.check("C02.string_type.every_string_type_but_VideotexString_has_a_rasn_type", got.is_ok(), || format!("component `f {st:?}` -> {got:?}"));
+    }
+    for (module, want) in [(None, "Other"), (Some("Mod-A".to_string()), "super::mod_a::Other")] {
+        let got = hook_type_table(&ASN1Type::ElsewhereDeclaredType(DeclarationElsewhere { parent: None, module: module.clone(), identifier: "Other".into(), constraints: vec![] }), "f", "Parent", false);
+        rep.check(if module.is_none() { "C02.qualified_type.a_type_of_the_same_module_is_named_by_its_title_cased_name" } else { "C02.qualified_type.a_type_of_another_module_is_named_through_that_modules_path" }, matches!(&got, Ok(g) if nows(g) == want), || format!("component `f {module:?}.Other` -> {got:?}"));
+    }
     let inner = hook_inner_name("f", "Parent");
     let fill = |pat: &str, rec: bool| -> String {
         if pat == "@INNER@" { if rec { format!("Box<{inner}>") } else { inner.clone() } }
